@@ -81,7 +81,7 @@ func c11sDraw(rt *rapid.T) *c11sCase {
 		return append(out, specs[pos:]...)
 	}
 	cs := &c11sCase{}
-	switch rapid.IntRange(0, 6).Draw(rt, "shape") {
+	switch rapid.IntRange(0, 7).Draw(rt, "shape") {
 	case 4:
 		// two changes: the first introduces a package (import and use), the
 		// second has that import on a context or '-' line and rewrites
@@ -137,6 +137,21 @@ func c11sDraw(rt *rapid.T) *c11sCase {
 		}
 		cs.File = "package foo\n\n" + c11sImports(at(by, name+` "example.com/lib/oldp"`), grouped) + uses() + "func sites() {\n\tlegacyDo(1)\n}\n"
 		cs.Expected = expect(name + ` "example.com/lib/oldp"`)
+	case 7:
+		// the change has no import lines at all; its code pattern is a bare
+		// string literal or a bare name that also occurs in the import
+		// declaration (as a path, as the name of an import)
+		what := rapid.SampledFrom([]string{"path", "alias"}).Draw(rt, "what")
+		cs.Shape = "code-pattern-matches-inside-import-declaration:" + what
+		if what == "path" {
+			cs.Patch = "@@\n@@\n-\"example.com/lib/oldp\"\n+\"example.com/lib/newp\"\n"
+			cs.File = "package foo\n\n" + c11sImports(at(by, `"example.com/lib/oldp"`), grouped) + uses() + "var registered = \"example.com/lib/oldp\"\n\nfunc sites() {\n\toldp.Do(1)\n}\n"
+			cs.Expected = expect(`"example.com/lib/oldp"`)
+		} else {
+			cs.Patch = "@@\n@@\n-oldq\n+newq\n"
+			cs.File = "package foo\n\n" + c11sImports(at(by, `oldq "example.com/lib/oldp"`), grouped) + uses() + "func sites() {\n\toldq.Do(1)\n}\n"
+			cs.Expected = expect(`oldq "example.com/lib/oldp"`)
+		}
 	case 0:
 		// the path of a '+' import is already imported, but under a name the
 		// patch does not mention: that import is a bystander, the '+' import
